@@ -556,7 +556,7 @@ def internal_gate_from_proto(msg: v2.program_pb2.InternalGate) -> InternalGate:
         gate_args[k] = arg_from_proto(v)
     return InternalGate(
         gate_name=str(msg.name),
-        gate_module=str(msg.module),
+        gate_module=str(msg.module) or None,  # an unset module is the constructor's default
         num_qubits=int(msg.num_qubits),
         custom_args=msg.custom_args,
         **gate_args,
